@@ -360,3 +360,26 @@ def write(path, data, mtime=None):
     if mtime is not None:
         os.utime(path, (mtime, mtime))
     return path
+
+
+def bz2_max_block_span(data):
+    """-> (largest compressed block of a .bz2 stream in bytes (rounded up), level's block size in bytes).
+    Block starts are found by scanning for the 48-bit block / end-of-stream magics at every bit offset."""
+    if len(data) < 14 or data[:3] != b"BZh":
+        return 0, 0
+    limit = (data[3] - 0x30) * 100000
+    big = int.from_bytes(data, "big")
+    nbits = len(data) * 8
+    pos = []
+    for sh in range(8):
+        # view of the stream shifted left by sh bits, byte aligned again
+        v = (big << sh) & ((1 << nbits) - 1)
+        b = v.to_bytes(len(data), "big")
+        for magic in (b"\x31\x41\x59\x26\x53\x59", b"\x17\x72\x45\x38\x50\x90"):
+            i = b.find(magic)
+            while i >= 0:
+                pos.append(i * 8 + sh)
+                i = b.find(magic, i + 1)
+    pos.sort()
+    span = max((b - a for a, b in zip(pos, pos[1:])), default=0)
+    return (span + 7) // 8, limit
